@@ -14,6 +14,7 @@ import (
 	"github.com/git-lfs/git-lfs/v3/lfs"
 	"github.com/git-lfs/git-lfs/v3/tq"
 	"github.com/git-lfs/git-lfs/v3/tr"
+	"github.com/git-lfs/git-lfs/v3/verifhook"
 	"github.com/git-lfs/pktline"
 	"github.com/spf13/cobra"
 )
@@ -31,16 +32,25 @@ const (
 	smudgeFilterBufferCapacity = pktline.MaxPacketLength
 )
 
+// filterCommand shadows package "os" with the (normally identical) standard
+// streams from verifhook.Stdio(); keep the import referenced.
+var _ *os.File
+
 // filterSmudgeSkip is a command-line flag owned by the `filter-process` command
 // dictating whether or not to skip the smudging process, leaving pointers as-is
 // in the working tree.
 var filterSmudgeSkip bool
 
 func filterCommand(cmd *cobra.Command, args []string) {
+	if verifhook.InProcess() {
+		goto verifBody
+	}
 	requireStdin(tr.Tr.Get("This command should be run by the Git filter process"))
 	setupRepository()
 	installHooks(false)
 
+verifBody:
+	os := verifhook.Stdio()
 	s := git.NewFilterProcessScanner(os.Stdin, os.Stdout)
 
 	if err := s.Init(); err != nil {
@@ -152,6 +162,7 @@ func filterCommand(cmd *cobra.Command, args []string) {
 				// `q.Wait()` once, and is called via a
 				// goroutine since `q.Wait()` is blocking.
 				go q.Wait()
+				verifhook.Yield("filter.spawnwait", q)
 			})
 
 			// The first, and all subsequent calls to
@@ -342,6 +353,7 @@ func readAvailable(ch <-chan *tq.Transfer, cap int) []*tq.Transfer {
 	ts := make([]*tq.Transfer, 0, cap)
 
 	for {
+		verifhook.Yield("filter.readavailable", nil)
 		select {
 		case t, ok := <-ch:
 			if !ok {
@@ -353,6 +365,7 @@ func readAvailable(ch <-chan *tq.Transfer, cap int) []*tq.Transfer {
 				return ts
 			}
 
+			verifhook.Yield("filter.readblocking", nil)
 			t, ok := <-ch
 			if !ok {
 				return ts
